@@ -9,8 +9,8 @@ Theorem C08_lro_decision : forall files pkg m,
   (forall oi, m_opinfo m = Some oi ->
      ((oi_response oi = "" \/ oi_metadata oi = "") -> decide files pkg m = Rejected ErrMissingType) /\
      (oi_response oi <> "" -> oi_metadata oi <> "" ->
-        let rk := resolve pkg (oi_response oi) in
-        let mk := resolve pkg (oi_metadata oi) in
+        let rk := resolve_lro files pkg (oi_response oi) in
+        let mk := resolve_lro files pkg (oi_metadata oi) in
         (known files rk = true -> known files mk = true -> decide files pkg m = Lro rk mk) /\
         (known files rk = false -> decide files pkg m = Rejected (ErrUnknownType rk)) /\
         (known files rk = true -> known files mk = false -> decide files pkg m = Rejected (ErrUnknownType mk)))).
@@ -20,7 +20,7 @@ Print Assumptions C08_lro_decision.
 Theorem C08_lro_accepted_sound : forall files pkg m r mt,
   decide files pkg m = Lro r mt ->
   exists oi, m_opinfo m = Some oi /\ oi_response oi <> "" /\ oi_metadata oi <> "" /\
-             r = resolve pkg (oi_response oi) /\ mt = resolve pkg (oi_metadata oi) /\
+             r = resolve_lro files pkg (oi_response oi) /\ mt = resolve_lro files pkg (oi_metadata oi) /\
              In r (universe files) /\ In mt (universe files).
 Proof. exact lro_accepted_sound. Qed.
 Print Assumptions C08_lro_accepted_sound.
@@ -30,7 +30,9 @@ Theorem C08_lro_rejected_sound : forall files pkg m e,
   exists oi, m_opinfo m = Some oi /\
     match e with
     | ErrMissingType => oi_response oi = "" \/ oi_metadata oi = ""
-    | ErrUnknownType k => known files k = false /\ (k = resolve pkg (oi_response oi) \/ k = resolve pkg (oi_metadata oi))
+    | ErrUnknownType k =>
+        exists sel, (sel = oi_response oi \/ sel = oi_metadata oi) /\ k = resolve pkg sel /\
+                    known files (resolve pkg sel) = false /\ known files (relative_key pkg sel) = false
     end.
 Proof. exact lro_rejected_sound. Qed.
 Print Assumptions C08_lro_rejected_sound.
@@ -43,6 +45,35 @@ Theorem C08_lro_resolve_spec : forall pkg sel,
   resolve pkg (resolve pkg sel) = resolve pkg sel.
 Proof. exact lro_resolve_spec. Qed.
 Print Assumptions C08_lro_resolve_spec.
+
+(* _resolve_lro_type: the name as written wins whenever it names a message (also when the package-relative reading
+   names one too); otherwise the package-relative reading; with neither the as-written key is kept *)
+Theorem C08_lro_resolve_fallback_spec : forall files pkg sel,
+  (known files (resolve pkg sel) = true -> resolve_lro files pkg sel = resolve pkg sel) /\
+  (known files (resolve pkg sel) = false -> known files (relative_key pkg sel) = true ->
+     resolve_lro files pkg sel = relative_key pkg sel) /\
+  (known files (resolve pkg sel) = false -> known files (relative_key pkg sel) = false ->
+     resolve_lro files pkg sel = resolve pkg sel) /\
+  (contains dot sel = false -> resolve_lro files pkg sel = relative_key pkg sel) /\
+  (known files (resolve_lro files pkg sel) = known files (resolve pkg sel) || known files (relative_key pkg sel)).
+Proof. exact lro_resolve_fallback_spec. Qed.
+Print Assumptions C08_lro_resolve_fallback_spec.
+
+Theorem C08_lro_as_written_wins : forall files pkg sel,
+  contains dot sel = true -> known files sel = true -> known files (relative_key pkg sel) = true ->
+  resolve_lro files pkg sel = sel.
+Proof. exact lro_as_written_wins. Qed.
+Print Assumptions C08_lro_as_written_wins.
+
+(* a package-relative dotted name of an existing (nested) message is accepted *)
+Theorem C08_nested_relative_name_accepted : forall files pkg m oi,
+  ends_with OPERATION_SUFFIX (m_output m) = true -> m_opinfo m = Some oi ->
+  oi_response oi <> "" -> oi_metadata oi <> "" ->
+  known files (resolve pkg (oi_response oi)) = false -> known files (relative_key pkg (oi_response oi)) = true ->
+  known files (resolve pkg (oi_metadata oi)) = false -> known files (relative_key pkg (oi_metadata oi)) = true ->
+  decide files pkg m = Lro (relative_key pkg (oi_response oi)) (relative_key pkg (oi_metadata oi)).
+Proof. exact nested_relative_name_accepted. Qed.
+Print Assumptions C08_nested_relative_name_accepted.
 
 (* resolution succeeds iff the message exists in ANY file of the request ... *)
 Theorem C08_lro_lookup_total : forall files key,
@@ -105,16 +136,17 @@ Theorem C08_poll_exhausted : forall (nd : list operation) (initial : operation) 
 Proof. exact poll_exhausted. Qed.
 Print Assumptions C08_poll_exhausted.
 
-(* the faithful model exhibits it: a nested message of the method's own package, named relative to the package,
-   is not resolved (replayed on the implementation by the check) *)
-Theorem C08_nested_relative_name_refuted :
-  exists files pkg m,
-    m_output m = OPERATION_TYPE /\
-    m_opinfo m = Some (mkOp "Outer.Inner" "Outer.Inner") /\
-    In (pkg ++ "." ++ "Outer.Inner") (universe files) /\
-    decide files pkg m = Rejected (ErrUnknownType "Outer.Inner").
-Proof. exact nested_relative_name_refuted. Qed.
-Print Assumptions C08_nested_relative_name_refuted.
+(* the former finding, now accepted, and the precedence when both readings name a message *)
+Example C08_nested_relative_example :
+  let f1 := [mkFile "a/b.proto" "a.b" [] ["a.b.Outer"; "a.b.Outer.Inner"]] in
+  let f2 := (mkFile "outer.proto" "Outer" [] ["Outer.Inner"] :: f1)%list in
+  let m := mkMethod "Start" OPERATION_TYPE (Some (mkOp "Outer.Inner" "Outer.Inner")) in
+  decide f1 "a.b" m = Lro "a.b.Outer.Inner" "a.b.Outer.Inner" /\
+  decide f2 "a.b" m = Lro "Outer.Inner" "Outer.Inner" /\
+  known f1 (resolve "a.b" "Outer.Inner") = false /\ known f1 (relative_key "a.b" "Outer.Inner") = true /\
+  decide f1 "a.b" (mkMethod "Start" OPERATION_TYPE (Some (mkOp "Outer.Nope" "Outer.Inner"))) = Rejected (ErrUnknownType "Outer.Nope").
+Proof. exact nested_relative_example. Qed.
+Print Assumptions C08_nested_relative_example.
 
 (* non-vacuity: every hypothesis above holds of a concrete request whose response type lives in a file that is
    listed after the service's file and imported by nobody, with a history of two not-done snapshots *)
